@@ -157,6 +157,7 @@ class Emu:
 
     def __init__(self, k):
         self.k, self.n, self.cum, self.wtmax, self.rho, self.c, self.fragile = k, 0, 0.0, 0.0, 1.0, 0.0, False
+        self.danger = False     # a downsample ran after the structure guarantee was lost (may index past data_)
 
     def clone(self):
         e = Emu(self.k)
@@ -174,6 +175,8 @@ class Emu:
             th = nr / self.rho
             if not (th >= 1.0):
                 self.c = th * self.c
+                if self.fragile:
+                    self.danger = True
         theta = theta_of(nr)
         cf, of = self.c - math.floor(self.c), theta - math.floor(theta)
         newc = self.c + theta
@@ -215,6 +218,7 @@ class Emu:
         self.__dict__.update(a.__dict__)
         self.k, self.n, self.cum = k, n, final
         self.fragile = self.fragile or fragile
+        self.danger = self.danger or a.danger or b.danger
 
 
 REL_TOL = Fraction(1, 10**9)
@@ -311,6 +315,13 @@ class Main(Part):
             sound = [x for x in live if not em[x].fragile]
             if r < p_merge and len(sound) >= 2:
                 d, s2 = rng.sample(sound, 2)
+                t1, t2 = em[d].clone(), em[s2].clone()
+                t1.merge(em[s2]); t2.merge(em[d])
+                if t1.danger or t2.danger:
+                    # this merge would down-sample AFTER one of the rounding defects struck inside it: the real code then
+                    # indexes past data_ (heap overflow / SEGV under ASan; see proposed_fixes/C18-merge-rounding.md)
+                    upd(d)
+                    continue
                 if rng.random() < 0.4 and free + 2 < 40:
                     # both directions from the same two states
                     d2, s3 = free, free + 1
